@@ -5,7 +5,7 @@ import collections
 from pathlib import Path
 
 import corr_config as CC
-from common import rng
+from common import has_surrogate, rng
 from corr_analyzer import correspondence_cfg
 
 ID = "C07"
@@ -56,7 +56,39 @@ def correspondence(ctx):
                 yield " ".join(ws), cfg_text, r.pick([CWD, CWD + "/sub"])
 
     out.append(correspondence_cfg(m, cases()))
+    out.append(corr_remove_quotes(m, rng("c07-rq"), ctx.scale(4000, 120000) * k))
     return out
+
+
+QCHARS = list("abrm-x{};=/.") + ["'", '"', "\\", "$", "$'", '$"', "\\x2d", "\\055", "\\u002d", "\\n", "\\c", "\\U0000002d", "\\x", "\\8", " ", "\n", "`", "$(", "${", "<(", "é", "\\'", '\\"', "\\\\"]
+
+
+def corr_remove_quotes(model, r, n):
+    """`_remove_quotes` vs the model on word source texts: well-formed respellings and arbitrary quote soup"""
+    from dippy.core.analyzer import _remove_quotes
+
+    import bashgen as B
+
+    acc = CC.Acc("_remove_quotes vs the model")
+    items = []
+    for _ in range(n):
+        if r.chance(0.5):
+            w = B.requote(r, r.pick(["rm", "-delete", "-exec", "git", "push", "a b", "it's", "x$y", "{}", ";", "-rf", "ls", "", "--force", "é"]))
+        else:
+            w = "".join(r.pick(QCHARS) for _ in range(r.randint(0, 7)))
+        if has_surrogate(w):
+            continue
+        try:
+            impl = _remove_quotes(w)
+        except Exception as e:  # noqa: BLE001
+            impl = "exc:" + type(e).__name__
+        if isinstance(impl, str) and has_surrogate(impl):
+            continue  # \ud800 … : Lean's Char has no surrogates (outside the model)
+        items.append((w, impl))
+    reps = model.batch([{"op": "removequotes", "s": w} for w, _ in items])
+    for (w, impl), rep in zip(items, reps):
+        acc.case(w, impl, rep, nontrivial=impl != w, tag="changed" if impl != w else "same", sample={"source": w, "word": impl})
+    return acc.result()
 
 
 def search(ctx):
@@ -146,6 +178,18 @@ def search(ctx):
             stats["prefix_checks"] += 1
             if a3 != act:
                 vios.append({"input": {"command": " ".join(ws2), "config": text, "cwd": CWD}, "observed": {"verdict": a3, "bare_command": cmd, "bare_verdict": act}, "required": f"same verdict as the bare command == {act}", "oracle": "prefix/wrapper-transparent"})
+        # the same command quoted differently (bash runs the same program with the same arguments): a rule that matches the
+        # plain spelling is not dodged - the verdict is never more lenient than the rule's decision
+        if hits and hits[-1].decision in ("deny", "ask"):
+            import bashgen as B
+
+            ws3 = [B.requote(r, x) if r.chance(0.6) else x for x in ws]
+            if ws3 != ws and not any("\n" in x for x in ws3):
+                a4, r4 = verdict(" ".join(ws3), cfg)
+                stats["requoted_commands"] += 1
+                if RANK[a4] < RANK[hits[-1].decision]:
+                    vios.append({"input": {"command": " ".join(ws3), "config": text, "cwd": CWD}, "observed": {"verdict": a4, "reason": r4, "plain_spelling": cmd, "plain_verdict": act},
+                                 "required": "bash reads this as '%s', which the rule '%s' answers %s: the quoted spelling must not be judged more leniently" % (cmd, hits[-1].pattern, hits[-1].decision), "oracle": "requoted-command"})
         # literal prefix semantics, checked against an independent string computation
         for rule in cfg.rules:
             p = rule.pattern
